@@ -187,6 +187,7 @@ pub fn check_curve(
 }
 
 fn check_shape(mode: GameMode, pts: &[PathControlPoint], bufs: &mut CurveBuffers, acc: &mut Acc) {
+    let _g = crate::engine::watch::guard("points", |s| s.push_str(&format!("{mode:?} {}", points_json(pts))));
     let nat = Curve::new(mode, pts, None, bufs);
     check_curve(mode, pts, None, &nat, acc);
     let nd = nat.dist();
